@@ -16,6 +16,7 @@ import Restful.Gen.Imp
 import Restful.Model.Curly
 import Restful.Model.Params
 import Restful.Model.Registry
+import Restful.Model.Jsr
 namespace Restful
 namespace TieImp
 open Imp
@@ -24,11 +25,27 @@ open Imp
 def envOf (rx : Str → Str → Bool × GoErr) (full : Str → Str → Bool) : ReEnv :=
   { search := fun re s => (rx re s).1 && (rx re s).2.isNone, full := full }
 
-/-- `Ext` with the un-translated helpers instantiated by the model's definitions -/
-def extOf (rx : Str → Str → Bool × GoErr) (join : Str → Str → Str) : ImpGen.Ext :=
+/-- `Ext` with the un-translated helpers instantiated by the model's definitions; `quote` stands for
+    `regexp.QuoteMeta` (arbitrary), `strings.TrimSpace` is the blank-only trim of the model (template
+    names and expressions contain no other white space: part of `wfTemplates`) -/
+def extOfQ (rx : Str → Str → Bool × GoErr) (join : Str → Str → Str) (quote : Str → Str) : ImpGen.Ext :=
   { TrimRightSlashEnabled := true, hasCustomVerb := Restful.hasCustomVerb,
     isMatchCustomVerb := Restful.isMatchCustomVerb, removeCustomVerb := Restful.removeCustomVerb,
-    path_Join := join, regexp_MatchString := rx }
+    path_Join := join, regexp_MatchString := rx, regexp_QuoteMeta := quote, strings_TrimSpace := Jsr.trimSpace }
+
+def extOf (rx : Str → Str → Bool × GoErr) (join : Str → Str → Str) : ImpGen.Ext := extOfQ rx join id
+
+/-- the text `templateToRegularExpression` writes for one token -/
+def tokText (quote : Str → Str) : Jsr.JTok → Str
+  | .lit s => quote s
+  | .var _ => "([^/]+?)".toList
+  | .re _ e => "(".toList ++ e ++ ")".toList
+  | .wild _ => "(.*)".toList
+
+/-- the source text of the compiled template expression: `^`, `/` + the text of every token, trailing
+    slashes removed, then the final group `(/.*)?$` -/
+def exprText (quote : Str → Str) (toks : List Jsr.JTok) : Str :=
+  Str.trimRight '/' ('^' :: (toks.map (fun t => '/' :: tokText quote t)).flatten) ++ "(/.*)?$".toList
 
 def ofStep : Curly.Step → Option (Bool × Bool)
   | .fail => some (false, false)
